@@ -43,7 +43,7 @@ Inductive pc :=
 | PPub (r : nat) (second : bool)          (* fresh record published (not locked) *)
 | PLoaded (r : nat) (tmp : Z) (second : bool)
 | PStored (r : nat) (second : bool)
-| PUnlink (r : nat)                       (* POINT unlink: before delKey of the first key *)
+| PUnlink (r : nat) (popped : bool)       (* POINT unlink: before delKey of the first key; popped = what the command will reply *)
 | PDone (reply : Z).
 
 Record thread := { t_cmd : cmd; t_pc : pc; t_held : list (nat * bool) (* record, exclusive? *) }.
@@ -116,7 +116,7 @@ Definition mstep (t : nat) (s : cstate) : option cstate :=
       | PLocked r sec =>
           match c with
           | Len _ => Some (commit t x (r_val (get_rec r s)) s)
-          | Del _ => Some (set_th t (with_pc x (PUnlink r)) s)
+          | Del _ => Some (set_th t (with_pc x (PUnlink r true)) s)
           | _ => Some (set_th t (with_pc x (PLoaded r (r_val (get_rec r s)) sec)) s)
           end
       | PMiss sec =>
@@ -130,7 +130,8 @@ Definition mstep (t : nat) (s : cstate) : option cstate :=
           match c with
           | Push _ | PushX _ => Some (set_th t (with_pc x (PStored r sec)) (set_rec r (with_val (get_rec r s) (tmp + 1) 1 0) s))
           | Pop _ =>
-              if tmp <=? 0 then Some (commit t x 0 s)
+              (* list.go LPop: pop, then "if LLen() == 0 { delKey(key) }" - also when nothing was popped *)
+              if tmp <=? 0 then Some (set_th t (with_pc x (PUnlink r false)) s)
               else Some (set_th t (with_pc x (PStored r sec)) (set_rec r (with_val (get_rec r s) (tmp - 1) 0 1) s))
           | Move _ _ =>
               if sec then Some (set_th t (with_pc x (PStored r sec)) (set_rec r (with_val (get_rec r s) (tmp + 1) 1 0) s))
@@ -141,18 +142,18 @@ Definition mstep (t : nat) (s : cstate) : option cstate :=
       | PStored r sec =>
           match c with
           | Push _ | PushX _ => Some (commit t x (r_val (get_rec r s)) s)
-          | Pop _ => if r_val (get_rec r s) =? 0 then Some (set_th t (with_pc x (PUnlink r)) s) else Some (commit t x 1 s)
+          | Pop _ => if r_val (get_rec r s) =? 0 then Some (set_th t (with_pc x (PUnlink r true)) s) else Some (commit t x 1 s)
           | Move _ _ =>
               if sec then Some (commit t x 1 s)
-              else if r_val (get_rec r s) =? 0 then Some (set_th t (with_pc x (PUnlink r)) s)
+              else if r_val (get_rec r s) =? 0 then Some (set_th t (with_pc x (PUnlink r true)) s)
               else Some (lookup_next t x true s)
           | _ => None
           end
-      | PUnlink r =>
+      | PUnlink r popped =>
           let s1 := set_ix (ndel (key_of c false) (ix s)) s in
           match c with
           | Move _ _ => Some (lookup_next t x true s1)
-          | _ => Some (commit t x 1 s1)
+          | _ => Some (commit t x (if popped then 1 else 0) s1)
           end
       end
   end.
@@ -218,4 +219,4 @@ Definition waiting (s : cstate) : list nat :=
   flat_map (fun tx => match t_pc (snd tx) with PWait _ _ => [fst tx] | _ => [] end) (ths s).
 Definition pc_tag (p : pc) : nat :=
   match p with PStart => 0 | PHit _ _ => 1 | PWait _ _ => 2 | PLocked _ _ => 3 | PMiss _ => 4 | PPub _ _ => 5
-             | PLoaded _ _ _ => 6 | PStored _ _ => 7 | PUnlink _ => 8 | PDone _ => 9 end%nat.
+             | PLoaded _ _ _ => 6 | PStored _ _ => 7 | PUnlink _ _ => 8 | PDone _ => 9 end%nat.
